@@ -127,6 +127,54 @@ HTEquiv(g1, g2, extra) ==
      ELSE IF e2.ok THEN [sum EXCEPT !.dis = 1, !.wit = [H |-> e2.H, T |-> e2.T, anthem |-> "false", reference |-> "true", env |-> extra]]
      ELSE sum
 
+\* ---------------------------------------------------------------- classical equivalence (same decomposition)
+WorldSpace(n, cap) ==
+  LET c == IF n <= cap THEN n ELSE cap
+      rest == (c + 1)..n
+  IN [core |-> 1..c, rps |-> IF rest = {} THEN {{}} ELSE {{}, rest}]
+EnumCL(A, B, atoms) ==
+  LET nb == TLCEval(Numbering(atoms))
+      ix == TLCEval(Indexer(atoms, nb))
+      a == TLCEval(IndexTree(A, ix))
+      b == TLCEval(IndexTree(B, ix))
+      sp == WorldSpace(nb.n, CLCap)
+      res == FoldSet(LAMBDA rp, x : FoldSet(LAMBDA Tc, y : TallyE(y, PCI(a, Tc \cup rp), PCI(b, Tc \cup rp), [T |-> Tc \cup rp]),
+                                            x, SUBSET sp.core), ZeroE, sp.rps)
+      back(w) == IF w = <<>> THEN <<>> ELSE [T |-> UnIndex(w.T, nb)]
+  IN [res EXCEPT !.w1 = back(@), !.w2 = back(@)]
+ModelCL(A, atoms) ==
+  LET nb == TLCEval(Numbering(atoms))
+      ix == TLCEval(Indexer(atoms, nb))
+      a == TLCEval(IndexTree(A, ix))
+      sp == WorldSpace(nb.n, CLCap)
+      good == {T \in {Tc \cup rp : rp \in sp.rps, Tc \in SUBSET sp.core} : PCI(a, T) = 2}
+  IN IF good = {} THEN [ok |-> FALSE] ELSE [ok |-> TRUE, T |-> UnIndex(CHOOSE x \in good : TRUE, nb)]
+CLEquiv(g1, g2, extra) ==
+  IF g1 = g2 THEN [Zero EXCEPT !.ident = 1, !.atoms = Cardinality(PAtoms(g2))]
+  ELSE
+  LET S1 == ConjOf(g1)
+      S2 == ConjOf(g2)
+      groups == Groups(S1 \cup S2)
+      diff == {g \in groups : g.items \cap S1 # g.items \cap S2}
+      cmp == TLCEval([g \in diff |-> EnumCL(AndOf(g.items \cap S1), AndOf(g.items \cap S2), g.atoms)])
+      sum == FoldSet(LAMBDA g, acc : [acc EXCEPT !.n = @ + cmp[g].n, !.unk = @ + cmp[g].unk, !.t = @ + cmp[g].t,
+                                                 !.f = @ + cmp[g].f, !.groups = @ + 1],
+                     [Zero EXCEPT !.atoms = Cardinality(PAtoms(g2))], diff)
+      c1 == {g \in diff : cmp[g].d1 > 0}
+      c2 == {g \in diff : cmp[g].d2 > 0}
+      Extend(g, w, S) ==
+        LET others == groups \ {g}
+            ms == TLCEval([o \in others |-> IF o.items \cap S = {} THEN [ok |-> TRUE, T |-> {}]
+                                            ELSE ModelCL(AndOf(o.items \cap S), o.atoms)])
+        IN IF \A o \in others : ms[o].ok
+           THEN [ok |-> TRUE, T |-> w.T \cup UNION {ms[o].T : o \in others}]
+           ELSE [ok |-> FALSE]
+      e1 == IF c1 = {} THEN [ok |-> FALSE] ELSE LET g == CHOOSE x \in c1 : TRUE IN Extend(g, cmp[g].w1, S1)
+      e2 == IF c2 = {} THEN [ok |-> FALSE] ELSE LET g == CHOOSE x \in c2 : TRUE IN Extend(g, cmp[g].w2, S2)
+  IN IF e1.ok THEN [sum EXCEPT !.dis = 1, !.wit = [I |-> e1.T, anthem |-> "true", reference |-> "false", env |-> extra]]
+     ELSE IF e2.ok THEN [sum EXCEPT !.dis = 1, !.wit = [I |-> e2.T, anthem |-> "false", reference |-> "true", env |-> extra]]
+     ELSE sum
+
 MergeT(x, y) == [n |-> x.n + y.n, unk |-> x.unk + y.unk, t |-> x.t + y.t, f |-> x.f + y.f, dis |-> x.dis + y.dis,
                  wit |-> IF x.dis > 0 THEN x.wit ELSE y.wit, groups |-> x.groups + y.groups, ident |-> x.ident + y.ident,
                  atoms |-> x.atoms + y.atoms]
@@ -154,8 +202,83 @@ EvalRule(r) ==
                                Out(r, "C08.natural_vs_semantics", HTEquiv(gn, gr, <<>>), "")>>
               ELSE <<Skip(r, "C08.natural_vs_tau", "not regular")>>)
 
+\* ---------------------------------------------------------------- formulas with free variables
+\* all assignments of the free variables / placeholders of the formulas (as environments)
+FreeKeys(fs) == UNION {FV(fs[i]) : i \in DOMAIN fs}
+AllEnvs(keys) == Envs(SetToSeq(keys))
+\* fold a per-environment comparison over all environments
+OverEnvs(keys, Cmp(_)) ==
+  FoldSet(LAMBDA e, acc : IF acc.dis > 0 THEN acc ELSE MergeT(acc, Cmp(e)), Zero, AllEnvs(keys))
+
+\* ---------------------------------------------------------------- kind "equiv": C07 (and C15/C06 helpers)
+\* r.f is the input formula; r.outs[i] = [logic |-> "ht" | "cl", out |-> formula, tags |-> ...]
+EvalEquivOne(r, o) ==
+  LET keys == FreeKeys(<<r.f, o.out>>)
+      newfree == FV(o.out) \ FV(r.f)
+      tally == OverEnvs(keys, LAMBDA e : IF o.logic = "ht" THEN HTEquiv(Ground(o.out, e), Ground(r.f, e), e)
+                                         ELSE CLEquiv(Ground(o.out, e), Ground(r.f, e), e))
+  IN IF newfree # {}
+     THEN Out(r, Prop \o ".no_new_free_variables",
+              [Zero EXCEPT !.dis = 1, !.wit = [note |-> "result has free variables the input lacks", vars |-> newfree]], o.tags)
+     ELSE Out(r, Prop \o ".equivalent_" \o o.logic, tally, o.tags)
+EvalEquiv(r) == [i \in DOMAIN r.outs |-> EvalEquivOne(r, r.outs[i])]
+
+\* ---------------------------------------------------------------- kind "gamma": C05
+\* (H,T) |= F  iff  the classical interpretation h(H) \cup t(T) satisfies gamma(F); distinct copies.
+PrefixAtoms(S, pfx) == {<<pfx \o a[1], a[2]>> : a \in S}
+RECURSIVE ArgTuples(_)
+ArgTuples(n) == IF n = 0 THEN {<<>>} ELSE {<<v>> \o tp : v \in BaseValues, tp \in ArgTuples(n - 1)}
+GammaEnum(gF, gG, preds, extra) ==
+  LET all == UNION {{<<preds[i].p, tp>> : tp \in ArgTuples(preds[i].n)} : i \in DOMAIN preds}
+      gat == PAtoms(gG)
+      rel == {a \in all : a \in PAtoms(gF) \/ <<"h" \o a[1], a[2]>> \in gat \/ <<"t" \o a[1], a[2]>> \in gat}
+      nb == TLCEval(Numbering(rel))
+      sp == PairSpace(nb.n, HTCap)
+      res == FoldSet(LAMBDA rp, x :
+               FoldSet(LAMBDA Tc, y :
+                 FoldSet(LAMBDA Hc, z :
+                           LET H == UnIndex(Hc \cup rp[1], nb)
+                               T == UnIndex(Tc \cup rp[2], nb)
+                           IN TallyE(z, PCI(gG, PrefixAtoms(H, "h") \cup PrefixAtoms(T, "t")), PS2(gF, H, T) \div 3,
+                                     [H |-> H, T |-> T]),
+                         y, SUBSET Tc),
+                 x, SUBSET sp.core), ZeroE, sp.rps)
+  IN [n |-> res.n, unk |-> res.unk, t |-> res.t, f |-> res.f, dis |-> res.d1 + res.d2,
+      wit |-> IF res.d1 > 0 THEN [H |-> res.w1.H, T |-> res.w1.T, anthem |-> "gamma(F) true", reference |-> "F false", env |-> extra]
+              ELSE IF res.d2 > 0 THEN [H |-> res.w2.H, T |-> res.w2.T, anthem |-> "gamma(F) false", reference |-> "F true", env |-> extra]
+              ELSE <<>>,
+      groups |-> 1, ident |-> 0, atoms |-> nb.n]
+EvalGamma(r) ==
+  LET keys == FreeKeys(<<r.f, r.g>>)
+      tally == OverEnvs(keys, LAMBDA e : GammaEnum(Ground(r.f, e), Ground(r.g, e), r.preds, e))
+      names == {<<"h" \o r.preds[i].p, r.preds[i].n>> : i \in DOMAIN r.preds} \cup {<<"t" \o r.preds[i].p, r.preds[i].n>> : i \in DOMAIN r.preds}
+      distinct == Cardinality(names) = 2 * Cardinality({<<r.preds[i].p, r.preds[i].n>> : i \in DOMAIN r.preds})
+      used == {<<r.gpreds[i].p, r.gpreds[i].n>> : i \in DOMAIN r.gpreds}
+  IN <<Out(r, "C05.gamma_reduces_ht_to_classical", tally, ""),
+       Out(r, "C05.distinct_copies",
+           IF distinct /\ used \subseteq names THEN [Zero EXCEPT !.n = 1, !.t = 1, !.ident = 1, !.atoms = 1]
+           ELSE [Zero EXCEPT !.dis = 1, !.wit = [note |-> "copies are not the distinct h-/t-prefixed predicates", used |-> used]], "")>>
+
+\* ---------------------------------------------------------------- kind "subst": C17
+\* Sat(F[x := t], e) = Sat(F, e[x |-> value of t under e]); free variables as specified.
+EvalSubst(r) ==
+  LET xkey == <<r.var.n, r.var.s>>
+      tv == TVars(r.term)
+      keys == (FV(r.f) \ {xkey}) \cup tv \cup FV(r.out)
+      tally == OverEnvs(keys, LAMBDA e :
+                 LET val == TV(r.term, e)
+                 IN HTEquiv(Ground(r.out, e), Ground(r.f, (xkey :> val) @@ e), e))
+      expectFV == (FV(r.f) \ {xkey}) \cup (IF xkey \in FV(r.f) THEN tv ELSE {})
+  IN <<Out(r, "C17.substitution_preserves_meaning", tally, ""),
+       Out(r, "C17.free_variables",
+           IF FV(r.out) = expectFV THEN [Zero EXCEPT !.n = 1, !.t = 1, !.ident = 1, !.atoms = 1]
+           ELSE [Zero EXCEPT !.dis = 1, !.wit = [note |-> "free variables differ", got |-> FV(r.out), expected |-> expectFV]], "")>>
+
 EvalRecord(r) ==
   CASE r.kind = "rule" -> EvalRule(r)
+    [] r.kind = "equiv" -> EvalEquiv(r)
+    [] r.kind = "gamma" -> EvalGamma(r)
+    [] r.kind = "subst" -> EvalSubst(r)
     [] OTHER -> <<Skip(r, "none", r.kind)>>
 
 Init == st = [ph |-> "init"] /\ P = DefaultP
